@@ -42,33 +42,45 @@ def r1(cx, rec):
 @TABLE.rule('2', 'K1', 'a reply is accepted only when it carries no failure reason; a failure reason is reported as TrackerRespFail', floor=2)
 def r2(cx, rec):
     F = cx.F
-    P = resp_parse(F)
-    aggs = [bi for bi, si, e in mirq.agg_sites(P, r'^tracker_resp::TrackerResp$')]
-    fails = [(bi, e) for bi, si, e in mirq.agg_sites(P, r'^error::Error$', 'TrackerRespFail')]
-    sw = None
-    for sb in P.switches():
-        e, ts, o = P.cond(sb)
-        if e[0] == 'discr' and e[1][0] == 'call' and e[1][1] in F.fns and 'Option' in e[2]:
-            g = F.fn(e[1][1])
-            lit = [x for bb in mirq.real_calls(g) for x in walk(g.expr_call(bb)) if x[0] == 'bytes' and bytes(x[1]) == b'failure reason']
-            if lit:
-                sw = (sb, g)
-    if not sw:
-        raise AnchorMissing('no test of the "failure reason" key in the reply parser')
-    sb, g = sw
-    ve = P.variant_edges(sb)
-    none_t = ve.get('None', ve.get('_'))
-    some_t = ve.get('Some')
-    rec.site(P, sb, 'failure reason inspected first (%s)' % g.path)
-    for a in aggs:
-        rec.need(a in P.only_via_edge((sb, none_t)) or a == none_t, 'reply-accepted-despite-failure', P, a,
-                 'a TrackerResp value can be built although the reply carries a failure reason')
-    rec.need(bool(fails) and all(bi in P.only_via_edge((sb, some_t)) or bi == some_t for bi, e in fails), 'failure-not-reported', P, sb,
-             'a failure reason is not turned into Error::TrackerRespFail')
-    for bi, e in fails:
-        rec.site(P, bi, show(e)[:120])
-        r = P.reach_from(bi)
-        rec.need(bool(r & set(C.err_exit_blocks(P))) and not (r & set(aggs)), 'failure-continues', P, bi, 'after a failure reason the parser continues')
+    # the finder of the failure reason and the function that tests its result
+    finders = [g for g in F.user_fns() if any(x[0] == 'bytes' and bytes(x[1]) == b'failure reason'
+                                              for bb in mirq.real_calls(g) for x in walk(g.expr_call(bb), inl=False))]
+    G = C.one(finders, 'reader of the "failure reason" key')
+    tests = []
+    for f in F.user_fns():
+        for sb in f.switches():
+            e, ts, o = f.cond(sb)
+            if e[0] == 'discr' and e[1][0] == 'call' and e[1][1] == G.path:
+                tests.append((f, sb))
+    if not tests:
+        raise AnchorMissing('nobody tests the result of %s' % G.path)
+    P = tests[0][0]
+    rec.need(all(f.path == P.path for f, sb in tests), 'failure-test-scattered', P, None, 'the failure reason is tested in several functions')
+    key = show(P.cond(tests[0][1])[0])
+    rec.site(P, tests[0][1], 'failure reason inspected (%s)' % G.path)
+    rets = P.return_blocks()
+    n_ok = n_fail = 0
+    for p in mirq.enumerate_paths(P, 0, rets):
+        if p[-1] not in rets:
+            continue
+        pf = mirq.path_facts(P, p)
+        if pf is None:
+            continue
+        ret = mirq.value_on_path(P, p, 0)
+        is_err = (ret[0] == 'agg' and ret[3] == 'Err') or (ret[0] == 'call' and ret[1].endswith('from_residual'))
+        reason = pf['atoms'].get(key)
+        if not is_err:
+            n_ok += 1
+            rec.need(reason == 'None', 'reply-accepted-despite-failure', P, p[-1],
+                     'the parser can return a reply (%s) on a path where the failure reason is %s: a reply that carries a failure reason '
+                     'must be reported as TrackerRespFail' % (show(ret)[:60], reason or 'not inspected'))
+        if reason == 'Some':
+            n_fail += 1
+            is_fail = is_err and ret[0] == 'agg' and any(x[0] == 'agg' and x[3] == 'TrackerRespFail' for x in walk(ret))
+            rec.need(is_fail, 'failure-not-reported', P, p[-1], 'with a failure reason present the parser returns %s, not Error::TrackerRespFail' % show(ret)[:80])
+            if is_fail:
+                rec.site(P, p[-1], show(ret)[:120])
+    rec.need(n_ok >= 1 and n_fail >= 1, 'failure-paths', P, None, 'accepting paths: %d, failure-reason paths: %d' % (n_ok, n_fail))
 
 
 @TABLE.rule('3', 'K6', 'keys interval/peers/failure reason/ip/peer id/port; peers() = ip:port paired with the same entry\'s id in list '
